@@ -5,6 +5,7 @@ package checks
 import (
 	"fmt"
 	"sort"
+	"strings"
 	"testing"
 
 	"verif/harness/report"
@@ -103,11 +104,16 @@ func c15History(r *report.R, id string) {
 	}
 	for k, v := range g.failLog {
 		if g.ok[k] == 0 {
-			r.Note("family %s never succeeded: %.140s", k, v)
+			r.Note("family %s never succeeded: %.260s", k, strings.SplitN(v, "\n", 2)[0])
 		}
 	}
 	for k, v := range g.constr {
 		r.Count("construct/"+k, v)
+	}
+	for k, v := range g.failReasons {
+		if strings.HasPrefix(k, "liquidvesting") || strings.HasPrefix(k, "erc20") {
+			r.Count("fail/"+k, v)
+		}
 	}
 	r.Sample("history", map[string]any{"id": id, "cfg": h, "blocks": n.Height, "families_ok": g.families(), "routes": len(routes)})
 }
